@@ -13,6 +13,12 @@
 //!   host inv <node> now=            a payload that fails validation (NDATA without seq)
 //!   host offline now= | host online now=
 //!   host adv <ms> now=              advance virtual time (timers may fire)
+//!   host cancel off=<0|1> now=      `AppClient::cancel()`; off=1: the event loop reports the final Offline once the
+//!                                   disconnect has been asked for, off=0: it never does (bounded wait of 1 s).
+//!                                   Answer: the effects, then ` w=<n>`: the run loop returned n ms after the request
+//!                                   (`w=never`: not within the bound). Every later request answers `-`.
+//! `m=0` on ndata / dbirth / ddata: the payload carries NO metrics (legal: seq and timestamp only); the store call
+//! cannot show the message's id then (`nodeData(-1)`, `devData(d,-1)`, `devBirth(d,-1,1)`).
 //! Answer: the effects observed, e.g. `n1:nodeBirth(5,1);n1:devStale(2);n1:ncmd` or `-`.
 use crate::common::*;
 use crate::mock::*;
@@ -194,7 +200,42 @@ pub struct Sess {
     /// inputs; births are recognised by the id their store call shows (`nbirth_ts`)
     pub burst_mode: bool,
     nbirth_ts: BTreeMap<(String, i64), u64>,
+    /// the application's `AppClient` and the task running `Application::run()` (C20, host sentence)
+    app_client: Option<srad_app::AppClient>,
+    run: Option<tokio::task::JoinHandle<()>>,
+    run_done: bool,
+    /// `AppClient::cancel()` has been called
+    pub cancelled: bool,
 }
+
+/// how the event loop answers the disconnect `AppClient::cancel()` asks for
+#[derive(Clone, Copy, Debug, PartialEq)]
+pub enum FinalOffline {
+    /// never (the application waits its bounded 1 s)
+    Withheld,
+    /// after the application has taken the stop request (what a broker does: the disconnect is acted on first)
+    AfterStop,
+    /// handed to the event loop before the application task has run at all: the unbiased `select!` of
+    /// `AppEventLoop::poll` may deliver it as an ordinary Offline before the stop request is taken
+    WithCancel,
+}
+
+/// what a cancel did, as far as the property speaks of it
+#[derive(Clone, Debug)]
+pub struct CancelReport {
+    /// `AppClient::cancel()` completed without any virtual time passing
+    pub cancel_returned: bool,
+    /// the application task sat in `EventLoop::poll` (not in a send to a node's queue) when cancel was called
+    pub dispatcher_waiting: bool,
+    /// client calls parked when cancel was called
+    pub parked_before: Vec<usize>,
+    /// ms of virtual time after which `Application::run()` had returned (None: not within `bound_ms`)
+    pub returned_after: Option<u64>,
+    pub effects: Vec<(String, String)>,
+}
+
+/// virtual time the host may take to return after a cancel: `poll_until_offline_with_timeout` = 1 s
+pub const HOST_STOP_BOUND_MS: u64 = 1000;
 
 /// build the application on the current runtime, report it Online and run to quiescence. With
 /// `reset_clock` the mock clock reads `now` again afterwards (component `host`: the first request
@@ -202,6 +243,8 @@ pub struct Sess {
 thread_local! {
     /// the `AppClient` of the application built last on this thread (for the try_ publish scenario)
     static APP_CLIENT: std::cell::RefCell<Option<srad_app::AppClient>> = std::cell::RefCell::new(None);
+    /// the task running `Application::run()` of that application (has the run loop returned?)
+    static APP_RUN: std::cell::RefCell<Option<tokio::task::JoinHandle<()>>> = std::cell::RefCell::new(None);
 }
 
 async fn start_app(cfgw: &[&str], reset_clock: bool, strict: bool) -> (Hub, EventFeeder, Mem) {
@@ -247,7 +290,8 @@ async fn start_app(cfgw: &[&str], reset_clock: bool, strict: bool) -> (Hub, Even
         })
         .build();
     APP_CLIENT.with(|c| *c.borrow_mut() = Some(app_client));
-    tokio::spawn(app.run());
+    let run = tokio::spawn(app.run());
+    APP_RUN.with(|c| *c.borrow_mut() = Some(run));
     feeder.push(Event::Online);
     settle().await;
     if kv(cfgw, "tf") == Some("1") {
@@ -335,7 +379,144 @@ impl Sess {
             mem,
             burst_mode: false,
             nbirth_ts: BTreeMap::new(),
+            app_client: APP_CLIENT.with(|c| c.borrow().clone()),
+            run: APP_RUN.with(|c| c.borrow_mut().take()),
+            run_done: false,
+            cancelled: false,
         }
+    }
+
+    /// has `Application::run()` returned?
+    pub fn run_returned(&self) -> bool {
+        self.run_done || self.run.as_ref().map(|h| h.is_finished()).unwrap_or(false)
+    }
+
+    /// let virtual time run until `Application::run()` has returned, at most `bound_ms`; the ms that passed
+    pub fn wait_for_return(&mut self, bound_ms: u64) -> u64 {
+        if self.run_returned() {
+            return 0;
+        }
+        let mut run = self.run.take().expect("run handle");
+        let rt = self.rt.as_ref().expect("host session without own runtime");
+        let (ms, done) = rt.block_on(async {
+            let t0 = tokio::time::Instant::now();
+            // paused time jumps to the next timer once every task is idle
+            let done = tokio::time::timeout(Duration::from_millis(bound_ms), &mut run).await.is_ok();
+            for _ in 0..24 {
+                tokio::task::yield_now().await;
+            }
+            (t0.elapsed().as_millis() as u64, done)
+        });
+        if done {
+            self.run_done = true;
+        } else {
+            self.run = Some(run);
+        }
+        ms
+    }
+
+    /// deliver one event (a request body without `now=`) at clock reading `now` and run to quiescence; no request
+    /// line is written and no oracle runs: for scenarios the quiescent model does not describe (parked client calls)
+    pub fn feed(&mut self, body: &str, now: u64) -> Vec<(String, String)> {
+        let op = format!("host {} now={}", body, now);
+        let w: Vec<&str> = op.split(' ').collect();
+        let ev = self.build_event(&w, now).expect("event");
+        self.push(ev);
+        self.rt.as_ref().expect("host session without own runtime").block_on(async {
+            set_clocks(now);
+            ev_tick().await;
+        });
+        self.effects()
+    }
+
+    /// is the application task waiting inside `EventLoop::poll` (every event handed to the event loop has been
+    /// taken and dispatched)? `false` = it sits somewhere else, i.e. in `send().await` into a full node queue
+    pub fn dispatcher_waiting(&self) -> bool {
+        let (mut polls, mut polled) = (0u64, 0u64);
+        for o in self.hub.trace_from(0) {
+            match o {
+                Obs::Poll => polls += 1,
+                Obs::Polled(_) => polled += 1,
+                _ => {}
+            }
+        }
+        polls == polled + 1
+    }
+
+    /// `AppClient::cancel()` at clock reading `now`, the final Offline as `fin` says, then virtual time runs on in
+    /// 1 ms steps (clock readings now+1, now+2, ...) until `Application::run()` has returned, at most `bound_ms`.
+    /// The C20 clauses that hold for EVERY cancel are judged here: cancel itself never waits, it hands the offline
+    /// STATE certificate to the client through a try_ call and then asks for the disconnect.
+    pub fn cancel(&mut self, op: &str, now: u64, fin: FinalOffline, bound_ms: u64, ticked: bool, out: &mut Out) -> CancelReport {
+        let client = self.app_client.clone().expect("app client");
+        let hub = self.hub.clone();
+        let feeder = self.feeder.clone();
+        let parked_before = hub.parked_ids();
+        let dispatcher_waiting = self.dispatcher_waiting();
+        let host_online = self.host_online;
+        let from = hub.calls().len();
+        let rt = self.rt.as_ref().expect("host session without own runtime");
+        let cancel_returned = rt.block_on(async {
+            set_clocks(now);
+            // paused time only moves when every task is idle: the timeout fires iff cancel() is waiting for something
+            let done = tokio::time::timeout(Duration::from_millis(3), client.cancel()).await.is_ok();
+            if fin == FinalOffline::WithCancel {
+                feeder.push(Event::Offline);
+            }
+            ev_tick().await;
+            done
+        });
+        self.cancelled = true;
+        let during: Vec<Call> = hub.calls()[from..].to_vec();
+        let mut waited = 0u64;
+        if fin == FinalOffline::AfterStop && !self.run_returned() {
+            self.feeder.push(Event::Offline);
+        }
+        if ticked {
+            // 1 ms steps with the mock clock moving along (reorder timers may fire while the host waits)
+            while !self.run_returned() && waited < bound_ms {
+                waited += 1;
+                let t = now + waited;
+                self.rt.as_ref().unwrap().block_on(adv_ticks(t, 1));
+            }
+        } else {
+            waited = self.wait_for_return(bound_ms);
+        }
+        set_clocks(now + waited);
+        let returned_after = if self.run_returned() { Some(waited) } else { None };
+        // ---- the clauses of C20's host sentence that hold whatever the state of the application
+        let feat = |s: &str| format!("{}{}", s, if parked_before.is_empty() { "" } else { ":client-calls-parked" });
+        if !cancel_returned {
+            out.fail("C20:host-cancel-never-waits", &feat("cancel-waits"), format!("{}: AppClient::cancel() did not return without time passing (client calls parked: {:?})", op, parked_before));
+        }
+        let states: Vec<&Call> = during.iter().filter(|c| c.kind == Kind::State).collect();
+        let offline_cert = states.iter().position(|c| matches!(c.state, Some(srad_client::StatePayload::Offline { .. })));
+        match offline_cert {
+            None => out.fail("C20:host-cancel-publishes-offline-state", &feat("missing"), format!("{}: cancel handed over {:?}, no offline STATE certificate", op, during.iter().map(|c| c.kind.name()).collect::<Vec<_>>())),
+            Some(k) => {
+                let c = states[k];
+                if !c.is_try {
+                    out.fail("C20:host-cancel-publishes-offline-state", &feat("blocking-call"), format!("{}: the offline STATE certificate went through the client's blocking publish", op));
+                }
+                if c.topic != "spBv1.0/STATE/host" {
+                    out.fail("C20:host-cancel-publishes-offline-state", &feat("topic"), format!("{}: offline STATE certificate published on {}", op, c.topic));
+                }
+                if states.len() != 1 {
+                    out.fail("C20:host-cancel-publishes-offline-state", &feat("more-than-one-state-message"), format!("{}: {} STATE messages handed over by cancel", op, states.len()));
+                }
+            }
+        }
+        let disc: Vec<&Call> = during.iter().filter(|c| c.kind == Kind::Disconnect).collect();
+        if disc.len() != 1 {
+            out.fail("C20:host-cancel-disconnects", &feat(if disc.is_empty() { "missing" } else { "repeated" }), format!("{}: {} disconnect requests handed over by cancel", op, disc.len()));
+        } else if let Some(k) = offline_cert {
+            if disc[0].id < states[k].id {
+                out.fail("C20:host-cancel-disconnects", &feat("before-offline-state"), format!("{}: the disconnect was asked for before the offline STATE certificate was handed over", op));
+            }
+        }
+        let _ = host_online;
+        let effects = self.effects();
+        CancelReport { cancel_returned, dispatcher_waiting, parked_before, returned_after, effects }
     }
 
     fn node_event(&self, node: &str, kind: MessageKind, p: Payload) -> Event {
@@ -437,6 +618,11 @@ impl Sess {
 
     /// the property oracles, over what the implementation actually did
     fn oracle(&mut self, op: &str, w: &[&str], effs: &[(String, String)], now: u64, out: &mut Out) {
+        if self.cancelled && w[1] != "cancel" {
+            // the application has been stopped: C05/C06/C07 speak of a running host (what still happens is
+            // compared with the model: nothing)
+            return;
+        }
         let target = if w[1] == "ev" || w[1] == "inv" { Some(w[2].to_string()) } else { None };
         let was_birthed: BTreeMap<String, bool> = self.node_life.clone();
         let ts = kv(w, "ts").map(|x| x.parse::<u64>().unwrap());
@@ -444,16 +630,29 @@ impl Sess {
             self.order_suspended.insert(target.clone().unwrap());
         }
         // C05, last sentence, on a stream delivered in publish order: nothing is withheld
-        if self.inorder && w[1] == "ev" && matches!(w[3], "ndata" | "dbirth" | "ddata") {
+        if self.inorder && w[1] == "ev" && matches!(w[3], "ndata" | "dbirth" | "ddata" | "ddeath") {
             if let Some(id) = kv(w, "id").and_then(|x| x.parse::<i64>().ok()).filter(|x| *x > 0) {
                 let n = target.clone().unwrap();
+                // a payload without metrics (`m=0`) is a message like any other: it is applied (the store is
+                // called, with an empty list) and it consumes its sequence number
+                let bare = kv(w, "m") == Some("0");
+                let shown = if bare { -1 } else { id };
                 let want = match w[3] {
-                    "ndata" => format!("nodeData({})", id),
-                    "dbirth" => format!("devBirth({},{},1)", kv(w, "dev").unwrap(), id),
-                    _ => format!("devData({},{})", kv(w, "dev").unwrap(), id),
+                    "ndata" => Some(format!("nodeData({})", shown)),
+                    "dbirth" => Some(format!("devBirth({},{},1)", kv(w, "dev").unwrap(), shown)),
+                    "ddata" => Some(format!("devData({},{})", kv(w, "dev").unwrap(), shown)),
+                    // a DDEATH (never carries metrics) of a device held birthed marks it stale
+                    _ if self.dev_life.get(&(n.clone(), kv(w, "dev").unwrap().to_string())) == Some(&true) => Some(format!("devStale({})", kv(w, "dev").unwrap())),
+                    _ => None,
                 };
-                if !effs.iter().any(|(m, e)| *m == n && *e == want) {
-                    out.fail("C05:prompt-apply", &format!("in-order-stream:{}", w[3]), format!("{} => {:?}: expected {}", op, effs, want));
+                if let Some(want) = want {
+                    if !effs.iter().any(|(m, e)| *m == n && *e == want) {
+                        out.fail(
+                            "C05:prompt-apply",
+                            &format!("in-order-stream:{}{}", w[3], if bare { ":no-metrics" } else { "" }),
+                            format!("{} => {:?}: expected {}", op, effs, want),
+                        );
+                    }
                 }
             }
         }
@@ -621,6 +820,13 @@ impl Sess {
                 let ts = kv(w, "ts").map(|x| x.parse::<u64>().unwrap());
                 let ans = kv(w, "ans").unwrap_or("ok");
                 let id = kv(w, "id").map(|x| x.parse::<u64>().unwrap()).unwrap_or(0);
+                // `m=0`: a payload without any metric (a store rejection needs a metric to ride on)
+                let bare = match kv(w, "m") {
+                    None => false,
+                    Some("0") if ans == "ok" && matches!(w[3], "ndata" | "dbirth" | "ddata") => true,
+                    Some(x) => panic!("bad m={} on {}", x, w[3]),
+                };
+                let strip = |ms: Vec<Metric>| if bare { vec![] } else { ms };
                 Some(match w[3] {
                     "nbirth" => {
                         let t = ts.unwrap();
@@ -643,13 +849,13 @@ impl Sess {
                         let t = ts.unwrap();
                         let mut ms = vec![m_long("id", id, t, false)];
                         ms.extend(ans_metric(ans, t, false));
-                        self.node_event(node, MessageKind::Data, payload(Some(t), Some(num(w, "seq")), ms))
+                        self.node_event(node, MessageKind::Data, payload(Some(t), Some(num(w, "seq")), strip(ms)))
                     }
                     "dbirth" => {
                         let t = ts.unwrap();
                         let mut ms = vec![m_long("id", id, t, true)];
                         ms.extend(ans_metric(ans, t, true));
-                        self.dev_event(node, kv(w, "dev").unwrap(), MessageKind::Birth, payload(Some(t), Some(num(w, "seq")), ms))
+                        self.dev_event(node, kv(w, "dev").unwrap(), MessageKind::Birth, payload(Some(t), Some(num(w, "seq")), strip(ms)))
                     }
                     "ddeath" => {
                         let t = ts.unwrap();
@@ -659,7 +865,7 @@ impl Sess {
                         let t = ts.unwrap();
                         let mut ms = vec![m_long("id", id, t, false)];
                         ms.extend(ans_metric(ans, t, false));
-                        self.dev_event(node, kv(w, "dev").unwrap(), MessageKind::Data, payload(Some(t), Some(num(w, "seq")), ms))
+                        self.dev_event(node, kv(w, "dev").unwrap(), MessageKind::Data, payload(Some(t), Some(num(w, "seq")), strip(ms)))
                     }
                     x => panic!("bad host event {}", x),
                 })
@@ -672,9 +878,58 @@ impl Sess {
         }
     }
 
+    /// C20, host sentence, last part: "... and makes its run loop return". What is demanded: when the application
+    /// task was waiting for the next event at the moment of the cancel (it was not itself held up in a send to a
+    /// full node queue) and the event loop hands it nothing but - at most - the final Offline after the stop request
+    /// was taken, `Application::run()` returns within the bounded wait for the Offline (1 s of virtual time),
+    /// WHETHER OR NOT client calls of the node actors are parked (back-pressure) and whatever their queues hold.
+    pub fn judge_run_returns(&self, op: &str, rep: &CancelReport, fin: FinalOffline, out: &mut Out) {
+        if !rep.dispatcher_waiting || fin == FinalOffline::WithCancel {
+            return;
+        }
+        let ok = matches!(rep.returned_after, Some(w) if w <= HOST_STOP_BOUND_MS + 1);
+        if !ok {
+            let feature = format!(
+                "{}{}",
+                if fin == FinalOffline::Withheld { "offline-withheld" } else { "offline-delivered" },
+                if rep.parked_before.is_empty() { "" } else { ":client-calls-parked" }
+            );
+            out.fail(
+                "C20:host-run-returns",
+                &feature,
+                format!(
+                    "{}: Application::run() had not returned {} ms after AppClient::cancel() (application task idle in poll at the cancel; client calls parked at the cancel {:?}, still parked {:?})",
+                    op,
+                    HOST_STOP_BOUND_MS + 1,
+                    rep.parked_before,
+                    self.hub.parked_ids()
+                ),
+            );
+        }
+    }
+
+    fn exec_cancel(&mut self, op: &str, w: &[&str], now: u64, out: &mut Out) -> String {
+        let fin = match kv(w, "off") {
+            Some("1") => FinalOffline::AfterStop,
+            Some("0") => FinalOffline::Withheld,
+            x => panic!("bad cancel off={:?}", x),
+        };
+        if self.cancelled {
+            // a second cancel: `cancel()` would wait for room in the stop channel of a loop that is gone
+            return "-".into();
+        }
+        let rep = self.cancel(op, now, fin, HOST_STOP_BOUND_MS + 5, true, out);
+        self.judge_run_returns(op, &rep, fin, out);
+        self.oracle(op, w, &rep.effects, now, out);
+        format!("{} w={}", Self::canon(&rep.effects), rep.returned_after.map(|x| x.to_string()).unwrap_or("never".into()))
+    }
+
     pub fn exec(&mut self, op: &str, out: &mut Out) -> String {
         let w: Vec<&str> = op.split(' ').collect();
         let now = num(&w, "now");
+        if w[1] == "cancel" {
+            return self.exec_cancel(op, &w, now, out);
+        }
         let ev: Option<Event> = self.build_event(&w, now);
         let feeder = self.feeder.clone();
         let adv: u64 = if w[1] == "adv" { w[2].parse().unwrap() } else { 0 };
@@ -782,6 +1037,10 @@ impl<'a> Case<'a> {
         self.out.line(&op, &a);
         if let Some(ms) = body.strip_prefix("adv ") {
             self.now += ms.parse::<u64>().unwrap();
+        } else if body.starts_with("cancel ") && a != "-" {
+            // the request took 1 ms plus the time until the run loop returned
+            let w = a.rsplit_once(" w=").map(|x| x.1).unwrap_or("never");
+            self.now += 1 + w.parse::<u64>().unwrap_or(HOST_STOP_BOUND_MS + 5);
         } else {
             self.now += 1;
         }
@@ -838,6 +1097,9 @@ pub fn session(rng: &mut Rng, bd: u64, birth_ts: u64, n: usize, ndev: u64, next_
         } else {
             format!("ddata dev={} seq={} ts={} id={} ans=ok", d, seq, ts, id)
         };
+        // a legal but degenerate payload shape: seq and timestamp, no metric at all (a heartbeat; a DBIRTH of a
+        // device without metrics); a DDEATH never carries any
+        let body = if !body.starts_with("ddeath") && rng.chance(1, 8) { format!("{} m=0", body) } else { body };
         v.push(PMsg { body, index: k });
     }
     (birth, v)
@@ -999,6 +1261,7 @@ fn faulty_case(out: &mut Out, rng: &mut Rng) {
     let mut bd: Vec<u64> = (0..nodes).map(|_| rng.below(256)).collect();
     let mut old: Vec<(String, PMsg)> = vec![];
     let steps = rng.range(1, 5);
+    let cancel_mid = rng.chance(1, 8);
     for _ in 0..steps {
         let k = rng.below(nodes) as usize;
         let name = format!("n{}", k + 1);
@@ -1038,7 +1301,7 @@ fn faulty_case(out: &mut Out, rng: &mut Rng) {
                     c.out.count("fault:loss");
                     continue;
                 }
-                2 => {
+                2 if !q[i].body.contains(" m=0") => {
                     q[i].body = q[i].body.replace("ans=ok", if rng.chance(1, 2) { "ans=inv" } else { "ans=unk" });
                     c.out.count("fault:store-reject");
                 }
@@ -1090,6 +1353,12 @@ fn faulty_case(out: &mut Out, rng: &mut Rng) {
                     c.op(&format!("adv {}", ms));
                     c.out.count("fault:time-advance");
                 }
+                9 if cancel_mid && !c.sess.cancelled => {
+                    // the application is stopped in the middle of the history (gaps open, timers armed, host
+                    // possibly offline): the rest of the history meets a host that is gone
+                    c.op(&format!("cancel off={}", if rng.chance(1, 6) { 0 } else { 1 }));
+                    c.out.count("cancel:mid-history");
+                }
                 _ => {}
             }
             c.op(&format!("ev {} {}", name, m.body));
@@ -1105,11 +1374,21 @@ fn faulty_case(out: &mut Out, rng: &mut Rng) {
             c.op(&format!("adv {}", t + 1));
         }
     }
+    if !c.sess.cancelled && rng.chance(1, 2) {
+        let off = if rng.chance(1, 10) { 0 } else { 1 };
+        c.op(&format!("cancel off={}", off));
+        c.out.count(if off == 1 { "cancel:end-of-history:offline-delivered" } else { "cancel:end-of-history:offline-withheld" });
+        if rng.chance(1, 2) {
+            c.op("adv 101");
+        }
+    }
     c.out.nontrivial();
     c.out.count("faulty");
 }
 
-const SYMS: [&str; 15] = ["B", "B+", "Bold", "X", "Xm", "N0", "N1", "Ndup", "DB", "DD", "DX", "OFF", "ON", "ADV", "Nrej"];
+/// the first `SOUP_EXHAUSTIVE` symbols are enumerated exhaustively; all of them are used by the random soups
+const SYMS: [&str; 19] = ["B", "B+", "Bold", "X", "Xm", "N0", "N1", "Ndup", "DB", "DD", "DX", "OFF", "ON", "ADV", "Nrej", "N0e", "DDe", "DBe", "CX"];
+const SOUP_EXHAUSTIVE: usize = 16;
 
 /// one node, one device, small alphabet; `pubseq` is the publisher's counter
 fn soup_case(out: &mut Out, syms: &[usize], cfg: &str, stat: &str) {
@@ -1179,6 +1458,22 @@ fn soup_case(out: &mut Out, syms: &[usize], cfg: &str, stat: &str) {
             "Nrej" => {
                 pubseq = nx;
                 c.op(&format!("ev n1 ndata seq={} ts={} id={} ans=inv", nx, now, id));
+            }
+            // the next message in sequence, carrying no metrics
+            "N0e" => {
+                pubseq = nx;
+                c.op(&format!("ev n1 ndata seq={} ts={} id={} ans=ok m=0", nx, now, id));
+            }
+            "DDe" => {
+                pubseq = nx;
+                c.op(&format!("ev n1 ddata dev=1 seq={} ts={} id={} ans=ok m=0", nx, now, id));
+            }
+            "DBe" => {
+                pubseq = nx;
+                c.op(&format!("ev n1 dbirth dev=1 seq={} ts={} id={} ans=ok m=0", nx, now, id));
+            }
+            "CX" => {
+                c.op(&format!("cancel off={}", if id % 8 == 0 { 0 } else { 1 }));
             }
             _ => unreachable!(),
         }
@@ -1472,6 +1767,341 @@ fn wrap_verbs_scenario(out: &mut Out) {
     }
 }
 
+// ------------------------------------------------------------------------------------------
+// C20, host sentence: cancelling the generic Application
+// ------------------------------------------------------------------------------------------
+
+fn fin_name(f: FinalOffline) -> &'static str {
+    match f {
+        FinalOffline::Withheld => "withheld",
+        FinalOffline::AfterStop => "after-stop",
+        FinalOffline::WithCancel => "with-cancel",
+    }
+}
+fn fin_of(s: &str) -> FinalOffline {
+    match s {
+        "withheld" => FinalOffline::Withheld,
+        "after-stop" => FinalOffline::AfterStop,
+        "with-cancel" => FinalOffline::WithCancel,
+        x => panic!("bad final-offline mode {}", x),
+    }
+}
+
+/// one node of a back-pressure case: how its actor got parked in the client (if at all) and how many messages wait
+/// in its bounded queue behind the parked actor
+#[derive(Clone, Debug)]
+struct BpNode {
+    /// "unknown": data from a node the host holds no birth for (rebirth NCMD parked); "oos": the NDEATH of a birthed
+    /// node carries another bdSeq than its birth (rebirth NCMD parked); "idle": birthed, nothing parked, queue empty
+    how: &'static str,
+    queued: u64,
+}
+
+/// Cancel while node actors sit in a BLOCKING client call (the rebirth NCMD, parked by the client = back-pressure) and
+/// messages wait behind them in their bounded queues. `nodes[i].queued` may be the queue size exactly (full), less, or
+/// one more (then the application task itself is held in `send().await` when the cancel comes). No request lines (the
+/// quiescent model has no parked actor); the oracles are the C20 clauses of `Sess::cancel`, `judge_run_returns`, and:
+/// * `with-cancel` and every queue with room: the Offline fits whichever way the `select!` falls => run() returns
+/// * after the client has released every parked call run() returns in any case ("once outstanding client calls complete")
+fn cancel_backpressure_case(out: &mut Out, q: u64, nodes: &[BpNode], fin: FinalOffline, release: bool, desc: String) {
+    let t0 = 1_000_000u64;
+    let cfg = format!("ip=1 bd=1 un=1 ud=1 um=1 rf=1 rs=1 to=- cd=0 rq=1 q={}", q);
+    let mut c = Case::begin(out, &cfg, t0);
+    c.out.set_desc(desc.clone());
+    let hub = c.sess.hub();
+    let mut now = t0;
+    let mut id = 0u64;
+    let mut tick = |sess: &mut Sess, body: String| {
+        let e = sess.feed(&body, now);
+        now += 1;
+        e
+    };
+    // births first (no client call involved), then the client starts to park every blocking call
+    for (i, n) in nodes.iter().enumerate() {
+        if n.how != "unknown" {
+            id += 1;
+            tick(&mut c.sess, format!("ev n{} nbirth ts={} bd=1 id={} ans=ok", i + 1, t0 + i as u64, id));
+            id += 1;
+            tick(&mut c.sess, format!("ev n{} ndata seq=1 ts={} id={} ans=ok", i + 1, t0 + 10, id));
+        }
+    }
+    hub.default_blocking(Some(Decision::Park));
+    let mut want_parked = 0;
+    for (i, n) in nodes.iter().enumerate() {
+        match n.how {
+            "unknown" => {
+                id += 1;
+                tick(&mut c.sess, format!("ev n{} ndata seq=1 ts={} id={} ans=ok", i + 1, t0 + 10, id));
+                want_parked += 1;
+            }
+            "oos" => {
+                tick(&mut c.sess, format!("ev n{} ndeath bd=9", i + 1));
+                want_parked += 1;
+            }
+            _ => {}
+        }
+    }
+    let parked_ok = hub.parked_ids().len() == want_parked;
+    // the messages that wait behind the parked actors: handed to the event loop in one go, round robin
+    let mut left: Vec<u64> = nodes.iter().map(|n| if n.how == "idle" { 0 } else { n.queued }).collect();
+    let mut k = 0u64;
+    while left.iter().any(|x| *x > 0) {
+        for (i, l) in left.iter_mut().enumerate() {
+            if *l > 0 {
+                *l -= 1;
+                k += 1;
+                id += 1;
+                let op = format!("host ev n{} ndata seq={} ts={} id={} ans=ok{} now={}", i + 1, (1 + k) % 256, t0 + 20, id, if k % 5 == 0 { " m=0" } else { "" }, now);
+                let w: Vec<&str> = op.split(' ').collect();
+                let ev = c.sess.build_event(&w, now).unwrap();
+                c.sess.push(ev);
+            }
+        }
+    }
+    c.sess.rt.as_ref().unwrap().block_on(ev_tick());
+    now += 1;
+    c.sess.effects();
+    let room_everywhere = nodes.iter().all(|n| n.how == "idle" || n.queued < q);
+    let op = format!("{} (cancel at {})", desc, now);
+    let rep = c.sess.cancel(&op, now, fin, HOST_STOP_BOUND_MS + 5, false, c.out);
+    c.sess.judge_run_returns(&op, &rep, fin, c.out);
+    c.out.count(&format!("cancel-bp:app-task-{}", if rep.dispatcher_waiting { "idle" } else { "held-in-send" }));
+    c.out.count(&format!("cancel-bp:final-offline-{}", fin_name(fin)));
+    c.out.count(&format!("cancel-bp:q={}", q));
+    if !parked_ok {
+        c.out.count("cancel-bp:actors-not-parked-as-planned");
+    }
+    if fin == FinalOffline::WithCancel && rep.dispatcher_waiting && room_everywhere && !matches!(rep.returned_after, Some(w) if w <= HOST_STOP_BOUND_MS + 1) {
+        c.out.fail(
+            "C20:host-run-returns",
+            "offline-with-cancel:queues-have-room:client-calls-parked",
+            format!("{}: Application::run() had not returned {} ms after AppClient::cancel() (every node queue had room for the Offline; client calls still parked {:?})", op, HOST_STOP_BOUND_MS + 1, hub.parked_ids()),
+        );
+    }
+    c.out.count(&format!(
+        "cancel-bp:{}:app-task-{}:offline-{}:{}",
+        if rep.returned_after.is_some() { "returned" } else { "WAITS-FOR-THE-CLIENT" },
+        if rep.dispatcher_waiting { "idle" } else { "held-in-send" },
+        fin_name(fin),
+        if room_everywhere { "queues-have-room" } else { "a-queue-full" }
+    ));
+    if release {
+        // the client gets room again: every parked call completes, later ones are accepted at once
+        hub.default_blocking(None);
+        for pid in hub.parked_ids() {
+            hub.resolve(pid, true);
+        }
+        let ms = c.sess.wait_for_return(HOST_STOP_BOUND_MS + 5);
+        if !c.sess.run_returned() {
+            c.out.fail(
+                "C20:host-run-returns",
+                "after-client-released-every-call",
+                format!("{}: every parked client call was completed, Application::run() had still not returned {} ms later (parked now: {:?})", op, ms, hub.parked_ids()),
+            );
+        }
+        c.out.count("cancel-bp:released");
+    }
+    c.out.nontrivial();
+    c.out.count("cancel-backpressure");
+}
+
+fn bp_desc(q: u64, nodes: &[BpNode], fin: FinalOffline, release: bool) -> String {
+    let ns: Vec<String> = nodes.iter().map(|n| format!("{}:{}", n.how, n.queued)).collect();
+    format!("cancel-backpressure q={} nodes={} off={} rel={}", q, ns.join(","), fin_name(fin), release as u8)
+}
+
+fn bp_from_desc(desc: &str, out: &mut Out) {
+    let w: Vec<&str> = desc.split(' ').collect();
+    let q = num(&w, "q");
+    let nodes: Vec<BpNode> = kv(&w, "nodes")
+        .unwrap()
+        .split(',')
+        .map(|t| {
+            let (h, n) = t.split_once(':').unwrap();
+            let how = match h {
+                "unknown" => "unknown",
+                "oos" => "oos",
+                _ => "idle",
+            };
+            BpNode { how, queued: n.parse().unwrap() }
+        })
+        .collect();
+    cancel_backpressure_case(out, q, &nodes, fin_of(kv(&w, "off").unwrap()), num(&w, "rel") == 1, desc.to_string());
+}
+
+/// C20, host sentence. (1) request lines compared with the model: cancel of a quiet host, of an offline host, with a
+/// gap open and the reorder timer armed (it fires while the host waits for the Offline), events after the stop;
+/// (2) the back-pressure matrix: queue sizes 1 / 2 / 1024 x queue exactly full / one short / empty / one too many x final
+/// Offline withheld / delivered after the stop was taken / handed over together with the cancel x parked calls released
+/// later / never; (3) random mixes of 1-3 nodes.
+fn cancel_scenarios(out: &mut Out, rng: &mut Rng) {
+    let t0 = 1_000_000u64;
+    for (name, off) in [("quiet", 1u64), ("quiet", 0), ("host-offline", 0), ("host-offline", 1), ("gap-open", 0), ("gap-open", 1), ("unborn", 1)] {
+        let cfg = cfg_default("100", 0, 1);
+        let mut c = Case::begin(out, &cfg, t0);
+        c.out.set_desc(format!("cancel basic {}", name));
+        if name != "unborn" {
+            c.op(&format!("ev n1 nbirth ts={} bd=3 id=1 ans=ok", t0));
+            c.op(&format!("ev n1 dbirth dev=1 seq=1 ts={} id=2 ans=ok", t0 + 1));
+        }
+        match name {
+            "host-offline" => {
+                c.op("offline");
+            }
+            "gap-open" => {
+                c.op(&format!("ev n1 ndata seq=3 ts={} id=4 ans=ok", t0 + 3));
+                c.op("adv 40");
+            }
+            _ => {}
+        }
+        c.op(&format!("cancel off={}", off));
+        // the host is gone: nothing is applied, nothing is requested any more
+        c.op(&format!("ev n1 ndata seq=2 ts={} id=3 ans=ok", t0 + 2));
+        c.op(&format!("ev n2 ndata seq=1 ts={} id=9 ans=ok", t0 + 2));
+        c.op("offline");
+        c.op("adv 101");
+        c.op(&format!("cancel off={}", off));
+        c.out.nontrivial();
+        c.out.count("cancel-basic");
+    }
+    for q in [1u64, 2, 1024] {
+        let mut fills = vec![q, q - 1, q + 1];
+        if q > 1 {
+            fills.push(0);
+        }
+        for queued in fills {
+            for fin in [FinalOffline::Withheld, FinalOffline::AfterStop, FinalOffline::WithCancel] {
+                for release in [false, true] {
+                    for how in ["unknown", "oos"] {
+                        if how == "oos" && (q == 1024 || fin == FinalOffline::AfterStop) {
+                            continue;
+                        }
+                        let nodes = vec![BpNode { how, queued }, BpNode { how: "idle", queued: 0 }];
+                        let d = bp_desc(q, &nodes, fin, release);
+                        cancel_backpressure_case(out, q, &nodes, fin, release, d);
+                    }
+                }
+            }
+        }
+    }
+    for _ in 0..40 {
+        let q = *rng.pick(&[1u64, 2, 3, 1024]);
+        let nn = rng.range(1, 3);
+        let mut over = false;
+        let nodes: Vec<BpNode> = (0..nn)
+            .map(|_| {
+                let how = *rng.pick(&["unknown", "oos", "idle", "unknown"]);
+                let mut queued = if q == 1024 { *rng.pick(&[0u64, 1, 1023, 1024, 1024]) } else { rng.range(0, q) };
+                if how != "idle" && !over && rng.chance(1, 8) {
+                    queued = q + 1;
+                    over = true;
+                }
+                BpNode { how, queued }
+            })
+            .collect();
+        let fin = *rng.pick(&[FinalOffline::Withheld, FinalOffline::AfterStop, FinalOffline::WithCancel]);
+        let release = rng.chance(1, 2);
+        let d = bp_desc(q, &nodes, fin, release);
+        cancel_backpressure_case(out, q, &nodes, fin, release, d);
+    }
+}
+
+/// `wrap_verbs_scenario` with every third message carrying NO metrics (three phases, so every position of the 8-bit
+/// sequence space incl. 255, 0 and 1 after the wrap sees a metric-less NDATA / DDATA / DBIRTH) and DDEATHs mixed in
+fn wrap_verbs_no_metrics_scenario(out: &mut Out) {
+    for phase in 0..3u64 {
+        let cfg = cfg_default(if phase == 1 { "100" } else { "-" }, 0, 1);
+        let t0 = 1_000_000;
+        let mut c = Case::begin(out, &cfg, t0);
+        c.out.set_desc("clean inorder wrap-verbs no-metrics".into());
+        c.sess.ordered_ids = true;
+        c.sess.inorder = true;
+        c.sess.clean = true;
+        c.op(&format!("ev n1 nbirth ts={} bd=3 id=1 ans=ok", t0));
+        c.op(&format!("ev n1 dbirth dev=1 seq=1 ts={} id=2 ans=ok", t0 + 1));
+        let mut dev2 = false;
+        for k in 2..=530u64 {
+            let (seq, ts, id) = (k % 256, t0 + k, k + 1);
+            let m = if (k + phase) % 3 == 0 { " m=0" } else { "" };
+            match (k + phase) % 4 {
+                _ if dev2 && k % 23 == 7 => {
+                    dev2 = false;
+                    c.op(&format!("ev n1 ddeath dev=2 seq={} ts={} id={}", seq, ts, id))
+                }
+                0 => c.op(&format!("ev n1 ndata seq={} ts={} id={} ans=ok{}", seq, ts, id, m)),
+                1 => c.op(&format!("ev n1 ddata dev=1 seq={} ts={} id={} ans=ok{}", seq, ts, id, m)),
+                2 => {
+                    dev2 = true;
+                    c.op(&format!("ev n1 dbirth dev=2 seq={} ts={} id={} ans=ok{}", seq, ts, id, m))
+                }
+                _ if dev2 => c.op(&format!("ev n1 ddata dev=2 seq={} ts={} id={} ans=ok{}", seq, ts, id, m)),
+                _ => c.op(&format!("ev n1 ndata seq={} ts={} id={} ans=ok{}", seq, ts, id, m)),
+            };
+        }
+        c.op("adv 101");
+        c.out.nontrivial();
+        c.out.count("wrap-verbs:no-metrics");
+    }
+}
+
+/// Payloads WITHOUT METRICS (legal: srad-eon refuses to publish one, other Sparkplug publishers send them as
+/// heartbeats; a DDEATH never carries any): the message still takes its sequence number, so it is applied (the store is
+/// called with an empty list) and everything behind it is applied as it arrives - nothing is withheld, no gap opens, no
+/// rebirth is requested when the reorder timeout passes. Delivered in order, `clean` (C07: no NCMD at all).
+fn no_metrics_scenario(out: &mut Out) {
+    let t0 = 1_000_000u64;
+    for (name, to, q) in [("first-data", "100", 1024u64), ("first-data", "-", 1), ("device", "100", 2), ("all", "100", 1024)] {
+        let cfg = format!("ip=0 bd=1 un=1 ud=1 um=1 rf=1 rs=1 to={} cd=0 rq=1 q={}", to, q);
+        let mut c = Case::begin(out, &cfg, t0);
+        c.out.set_desc(format!("clean inorder no-metrics {}", name));
+        c.sess.ordered_ids = true;
+        c.sess.inorder = true;
+        c.sess.clean = true;
+        c.op(&format!("ev n1 nbirth ts={} bd=3 id=1 ans=ok", t0));
+        let bare = |k: u64| match name {
+            "first-data" => k == 1,
+            "device" => k == 2 || k == 4,
+            _ => true,
+        };
+        let m = |k: u64| if bare(k) { " m=0" } else { "" };
+        // seq 1 NDATA, 2 DBIRTH dev 1, 3 NDATA, 4 DDATA dev 1, 5 DDEATH dev 1, 6 NDATA, 7 DBIRTH dev 1, 8 DDATA dev 1
+        c.op(&format!("ev n1 ndata seq=1 ts={} id=2 ans=ok{}", t0 + 1, m(1)));
+        c.op(&format!("ev n1 dbirth dev=1 seq=2 ts={} id=3 ans=ok{}", t0 + 2, m(2)));
+        c.op(&format!("ev n1 ndata seq=3 ts={} id=4 ans=ok{}", t0 + 3, m(3)));
+        c.op(&format!("ev n1 ddata dev=1 seq=4 ts={} id=5 ans=ok{}", t0 + 4, m(4)));
+        c.op(&format!("ev n1 ddeath dev=1 seq=5 ts={} id=6", t0 + 5));
+        c.op(&format!("ev n1 ndata seq=6 ts={} id=7 ans=ok{}", t0 + 6, m(6)));
+        c.op(&format!("ev n1 dbirth dev=1 seq=7 ts={} id=8 ans=ok{}", t0 + 7, m(7)));
+        c.op(&format!("ev n1 ddata dev=1 seq=8 ts={} id=9 ans=ok{}", t0 + 8, m(8)));
+        // the reorder window passes: nothing was held back, so nothing times out
+        c.op("adv 101");
+        c.op(&format!("ev n1 ndata seq=9 ts={} id=10 ans=ok", t0 + 120));
+        c.out.nontrivial();
+        c.out.count("no-metrics-scenario");
+    }
+    // out of order around a metric-less message: 3, 1(bare), 2 -> all three applied when 2 arrives
+    {
+        let cfg = cfg_default("100", 0, 1);
+        let mut c = Case::begin(out, &cfg, t0);
+        c.out.set_desc("clean no-metrics reordered".into());
+        c.sess.clean = true;
+        c.op(&format!("ev n1 nbirth ts={} bd=3 id=1 ans=ok", t0));
+        c.op(&format!("ev n1 ndata seq=3 ts={} id=4 ans=ok", t0 + 3));
+        let a1 = c.op(&format!("ev n1 ndata seq=1 ts={} id=2 ans=ok m=0", t0 + 1));
+        let a2 = c.op(&format!("ev n1 ndata seq=2 ts={} id=3 ans=ok m=0", t0 + 2));
+        if a1 != "n1:nodeData(-1)" || a2 != "n1:nodeData(-1);n1:nodeData(4)" {
+            c.out.fail(
+                "C05:prompt-apply",
+                "reordered:ndata:no-metrics",
+                format!("NBIRTH, seq 3, seq 1 (no metrics) => {}, seq 2 (no metrics) => {}: each is applied as soon as its predecessors have arrived, seq 3 right behind seq 2", a1, a2),
+            );
+        }
+        c.op("adv 101");
+        c.out.nontrivial();
+        c.out.count("no-metrics-scenario");
+    }
+}
+
 /// births and data stamped 0, 1, 2 ms: the first NBIRTH of a node is accepted iff its timestamp is
 /// newer than "never" (0), whatever the absolute value
 fn small_timestamp_scenario(out: &mut Out) {
@@ -1698,7 +2328,7 @@ fn invalid_unknown_node_scenario(out: &mut Out) {
     }
 }
 
-pub const RULE: &str = "host histories through the real Application (paused tokio time, mock clock, recording stores): (a) fault-free multi-node multi-device streams with several sessions/rebirths each, sequence wrap included, every message delivered once within a bounded displacement (oracles: no NCMD, promptness, order); (b) the same with duplicates, losses, NDEATHs with matching/non-matching bdSeq, host offline/online, late old-session deliveries, unknown nodes/devices, store rejections, replayed NBIRTHs, invalid payloads, virtual time advanced to just before/after the reorder timeout, random rebirth switches, cooldown 0 / finite / longer than the run, timeout present/absent, resequencing on/off, node-queue sizes 1/2/1024; (c) every event sequence of length <= L over a 15-symbol single-node alphabet, for two configurations; (d) scripted trigger scenarios, node-clock-ahead/behind probes, a late duplicate followed by 300 messages. Non-trivial = at least two deliveries; distinct = distinct request-line sequences (hashed).";
+pub const RULE: &str = "host histories through the real Application (paused tokio time, mock clock, recording stores): (a) fault-free multi-node multi-device streams with several sessions/rebirths each, sequence wrap included, every message delivered once within a bounded displacement (oracles: no NCMD, promptness, order); (b) the same with duplicates, losses, NDEATHs with matching/non-matching bdSeq, host offline/online, late old-session deliveries, unknown nodes/devices, store rejections, replayed NBIRTHs, invalid payloads, virtual time advanced to just before/after the reorder timeout, random rebirth switches, cooldown 0 / finite / longer than the run, timeout present/absent, resequencing on/off, node-queue sizes 1/2/1024; (c) every event sequence of length <= L over a 15-symbol single-node alphabet, for two configurations; (d) scripted trigger scenarios, node-clock-ahead/behind probes, a late duplicate followed by 300 messages; (e) payloads WITHOUT METRICS (`m=0`: NDATA / DBIRTH / DDATA carrying seq and timestamp only; DDEATH never carries any) in every generator - one message in eight of every generated session, two symbols of the exhaustive soups, a scripted scenario and every third message of a 530-message in-order session across the sequence wrap (oracle C05:prompt-apply: applied by the line that delivers it, nothing behind it withheld); (f) `AppClient::cancel()` of the generic Application (C20, host sentence): at the end or at a random point of faulty histories and random soups (final Offline delivered after the stop request was taken / withheld; the answer carries the ms until run() had returned; later requests meet a host that is gone), and - without request lines - a back-pressure matrix: node actors parked in their blocking rebirth NCMD publish by the client double, node queue sizes 1/2/1024 holding exactly the queue size / one less / none / one more message (the application task itself held in a send), final Offline withheld / delivered after the stop / handed over together with the cancel, parked calls released later or never, plus 40 random mixes of 1-3 nodes (oracles C20:host-cancel-never-waits, C20:host-cancel-publishes-offline-state, C20:host-cancel-disconnects, C20:host-run-returns). Non-trivial = at least two deliveries; distinct = distinct request-line sequences (hashed).";
 
 pub fn run(args: &Args, out: &mut Out) -> &'static str {
     let mut rng = Rng::new(args.seed);
@@ -1708,6 +2338,9 @@ pub fn run(args: &Args, out: &mut Out) -> &'static str {
     late_duplicate_scenario(out, "-");
     late_duplicate_scenario(out, "100");
     wrap_verbs_scenario(out);
+    wrap_verbs_no_metrics_scenario(out);
+    no_metrics_scenario(out);
+    cancel_scenarios(out, &mut rng);
     invalid_unknown_node_scenario(out);
     small_timestamp_scenario(out);
     fast_node_clock_replay_scenario(out);
@@ -1727,7 +2360,7 @@ pub fn run(args: &Args, out: &mut Out) -> &'static str {
                         break;
                     }
                     idx[k] += 1;
-                    if idx[k] < SYMS.len() {
+                    if idx[k] < SOUP_EXHAUSTIVE {
                         break;
                     }
                     idx[k] = 0;
@@ -1739,7 +2372,7 @@ pub fn run(args: &Args, out: &mut Out) -> &'static str {
             }
         }
     }
-    out.exhaustive.push(format!("all event sequences of length 0..={} over a 15-symbol single-node alphabet x 2 configurations", l));
+    out.exhaustive.push(format!("all event sequences of length 0..={} over a {}-symbol single-node alphabet x 2 configurations", l, SOUP_EXHAUSTIVE));
     // (a)
     for _ in 0..(if th { 300 } else { 40 }) {
         clean_case(out, &mut rng, false);
@@ -1766,6 +2399,9 @@ pub fn replay(desc: &str, lines: &[String], out: &mut Out) {
     if desc == "app-try-publish" {
         return app_try_publish_scenario(out);
     }
+    if desc.starts_with("cancel-backpressure ") {
+        return bp_from_desc(desc, out);
+    }
     let mut sess: Option<Sess> = None;
     for l in lines {
         if l.starts_with("host new ") {
@@ -1773,7 +2409,7 @@ pub fn replay(desc: &str, lines: &[String], out: &mut Out) {
             // "clean": the history is fault-free and every gap closes before the timeout
             s.clean = desc.starts_with("clean");
             s.ordered_ids = desc.starts_with("clean") || desc.starts_with("ordered");
-            s.inorder = desc.starts_with("ordered inorder");
+            s.inorder = desc.starts_with("ordered inorder") || desc.starts_with("clean inorder");
             sess = Some(s);
             out.begin_case(l, "ok");
             out.set_desc(desc.to_string());
